@@ -73,7 +73,7 @@ def check(tier, seed):
                 if src == 'prefix':
                     y += ['bypass_prefixes:', '  - bugfix']
                 y += ['pr_author_options:', '  aaa_other:', '    - bypass_jira_check',
-                      '  author:' + (' []' if src != 'per-author' else '')]
+                      '  author:', '    - bypass_build_status', '    - bypass_peer_approval']
                 if src == 'per-author':
                     y += ['    - bypass_jira_check']
                 open(ypath, 'w').write('\n'.join(y) + '\n')
